@@ -52,6 +52,23 @@ def docs(level, tier, rep=None, cfg=None, wrapname="Wrap2"):
     return out
 
 
+def twins(docs, seed=0, per_doc=2):
+    """Unicode-twin re-spellings (Alphabets!Twins): for each document and each character class that occurs in it,
+    every member of the class is replaced by one twin of the class (the twin rotates with the document index);
+    at most `per_doc` classes per document, chosen by rotation. Deterministic."""
+    rows = [(set(r[0]), r[1:]) for r in alphabet("Twins")]
+    out = []
+    for k, d in enumerate(docs):
+        present = [i for i, (members, _) in enumerate(rows) if members & set(d)]
+        if not present:
+            continue
+        for j in range(min(per_doc, len(present))):
+            members, tw = rows[present[(k + seed + j * 7) % len(present)]]
+            t = tw[(k // 3 + j + seed) % len(tw)]
+            out.append("".join(t if ch in members else ch for ch in d))
+    return out
+
+
 def sample(items, n, seed, keep_short=0):
     """Deterministic subsample; the `keep_short` shortest items are always kept."""
     items = list(items)
